@@ -569,8 +569,11 @@ func init() {
 		format := mustString(args[0], "fmt.Sprintf format")
 		na, ok := m.nativeArgs(args[1].([]value))
 		if !ok {
-			// the text may decide control flow later (keys, paths): do not guess
-			panic(unmodelled("fmt.Sprintf with a symbolic argument (format " + format + ")"))
+			// The text depends on symbolic data: return an opaque string (a fresh element of the
+			// uninterpreted string sort). Logging it is harmless; comparing it forks on an
+			// unconstrained equality; anything else (indexing, concatenation) is unmodelled.
+			m.IntrinsicsHit["fmt.Sprintf(symbolic argument -> opaque string)"]++
+			return ostr{m.ctx.Var(m.path.uniqueName("fmt!text")+"~str", smt.StrSort)}
 		}
 		return fmt.Sprintf(format, na...)
 	})
